@@ -1,6 +1,7 @@
 package main
 
 import (
+	"golang.org/x/tools/go/ssa"
 	"encoding/json"
 	"flag"
 	"fmt"
@@ -56,7 +57,17 @@ func main() {
 				x.siteIDs()
 				var ss []string
 				for in, sn := range x.sites {
-					if strings.HasPrefix(sn, "call:") || strings.HasPrefix(sn, "defer:") || strings.HasPrefix(sn, "mapupdate") {
+					if iff, ok := in.(*ssa.If); ok {
+						pos := iff.Cond.Pos()
+						if !pos.IsValid() {
+							if u, ok := iff.Cond.(*ssa.UnOp); ok {
+								pos = u.X.Pos()
+							}
+						}
+						ss = append(ss, fmt.Sprintf("%s\t%s  (cond %s)", v.prog.Fset.Position(pos), sn, iff.Cond.String()))
+						continue
+					}
+					if strings.HasPrefix(sn, "call:") || strings.HasPrefix(sn, "defer:") || strings.HasPrefix(sn, "mapupdate") || strings.HasPrefix(sn, "if") || strings.HasPrefix(sn, "field:") {
 						ss = append(ss, fmt.Sprintf("%s\t%s", v.prog.Fset.Position(in.Pos()), sn))
 					}
 				}
